@@ -9,15 +9,61 @@ TASK = "task"
 RULE = ("programs with non-negative rates / adjustments / mixing / infectiousness and no absolute flows; boundary states: every subset of "
         "compartments emptied when the model has <= 4 compartments, sampled subsets above, emptied entries 0 or -2^-10, every mixing "
         "category kept positive; oracle on the real code: comp_rates[c] >= 0 for every emptied c; adaptive trajectories never fall below "
-        "-50*(atol + rtol*N); distinct by program hash + emptied subset, non-trivial when the emptied compartment has an outflow")
+        "-50*(atol + rtol*N), also at explicit caller-supplied tolerances on fast epidemics and on coarse output grids; distinct by program hash + emptied subset, non-trivial when the emptied compartment has an outflow")
 TRUSTED = []
 ASSUMPTIONS = ["explicit Euler with h*w > 1 overshoots by construction and is not counted as a violation (DESIGN C18)"]
 
 def payloads(tier, seed):
     n = 60 if tier == "quick" else 1200
-    return [{"seed": seed, "index": i} for i in range(n)]
+    return [{"seed": seed, "index": i} for i in range(n)] + [{"seed": seed, "index": i, "mode": "adaptive"} for i in range(12 if tier == "quick" else 200)]
+
+def adaptive_task(W, payload):
+    """trajectory clause for the adaptive solver at the tolerance the CALLER asks for, on models whose compartments run (nearly) empty:
+    (a) a fast epidemic (infection rate >> recovery rate) with explicit tight tolerances, (b) a linear chain on a coarse output grid
+    (hundreds of time units between outputs) with the default tolerances"""
+    r = random.Random(f"C18a:{payload['seed']}:{payload['index']}")
+    out = mk_out()
+    from interp import Interp
+    if payload["index"] % 2 == 0:
+        beta = r.choice(["20", "35", "50", "80"]); gamma = r.choice(["1/2", "1", "2"])
+        ops = [{"op": "model", "t0": "0", "t1": r.choice(["8", "12"]), "dt": r.choice(["1", "1/2"]), "comps": ["S", "I", "R"], "inf": ["I"]},
+               {"op": "init_pop", "dist": [["S", {"c": "999"}], ["I", {"c": "1"}]]},
+               {"op": "flow", "kind": "inf_freq", "name": "inf", "param": {"c": beta}, "src": "S", "dst": "I"},
+               {"op": "flow", "kind": "transition", "name": "rec", "param": {"c": gamma}, "src": "I", "dst": "R"}]
+        tols = [r.choice(["1/1000000000", "1/100000000"]), "1/1000000"]
+        bump(out, "adaptive:fast_epidemic")
+    else:
+        a = r.choice(["1/100", "1/50", "1/20"]); b = r.choice(["1/200", "1/100", "1/40"])
+        ops = [{"op": "model", "t0": "0", "t1": r.choice(["3000", "2000"]), "dt": r.choice(["1000", "500"]), "comps": ["S", "I", "R"], "inf": ["I"]},
+               {"op": "init_pop", "dist": [["S", {"c": "900"}], ["I", {"c": "100"}]]},
+               {"op": "flow", "kind": "transition", "name": "a", "param": {"c": a}, "src": "S", "dst": "I"},
+               {"op": "flow", "kind": "transition", "name": "b", "param": {"c": b}, "src": "I", "dst": "R"}]
+        tols = [None, "1/1000000"]
+        bump(out, "adaptive:coarse_grid")
+    for tol in tols:
+        I = Interp()
+        if not all(I.apply(op)["ok"] for op in ops):
+            bump(out, "build_rejected"); return out
+        op = {"op": "run", "params": [], "solver": "odeint"}
+        if tol is not None:
+            op["rtol"] = tol; op["atol"] = tol
+        rr = I.apply(op)
+        out["evals"] += 1
+        if not rr["ok"]:
+            fail(out, "adaptive run failed", "c18", payload, program=ops, tolerance=tol, err=rr.get("err")); continue
+        o = np.array(rr["outputs"])
+        tl = 1.4e-4 if tol is None else float(Fr(tol))
+        N = float(np.abs(o[0]).sum())
+        lim = -50 * (tl + tl * max(N, 1.0))
+        out["cases"].append(prog_hash(ops) + ":adaptive:" + str(tol))
+        if not np.all(np.isfinite(o)) or o.min() < lim:
+            fail(out, "adaptive trajectory falls below zero by more than the requested solver tolerance", "c18", payload, minimum=float(np.nanmin(o)), limit=lim,
+                 tolerance=tol, program=ops)
+    return out
 
 def task(W, payload):
+    if payload.get("mode") == "adaptive":
+        return adaptive_task(W, payload)
     r = random.Random(f"C18:{payload['seed']}:{payload['index']}")
     kinds = ["transition", "death", "universal_death", "crude_birth", "repl_birth", "import", "infection", "infection"]
     prog = Gen(r, Opts(kinds=kinds, max_strats=2, max_flows=6, allow_requests=False, allow_computed=False)).program()
